@@ -766,3 +766,43 @@ Example ex_chunk_domain :
   chunk_anchor_domain (Some 2%nat) true
     [mklinst true [None; Some (QArith_base.Qmake 4%Z 1%positive, QArith_base.Qmake 6%Z 1%positive)]] = false.
 Proof. repeat split; reflexivity. Qed.
+
+(* ---- round 5: the DERIVED targets carry every labelled keypoint of the sample and nothing else ----
+   (the value of a live channel - a unit peak at the keypoint - is C01's theorem; C11 states which
+   channels are live and evaluates both on every sample of every dataset) *)
+Theorem frame_sample_channel_live : forall uo s frames k rows n,
+  frame_sample uo s frames k = Some (rows, n) ->
+  exists f, nth_error (lf_idx_list (ds_frames uo frames)) k = Some f /\
+    forall j, channel_live rows j = true <->
+      exists inst, In inst (considered uo (nth f frames [])) /\ nth j inst None <> None.
+Proof. exact frame_sample_channel_live_l. Qed.
+Print Assumptions frame_sample_channel_live.
+
+(* padding rows and the NaN rows of other animals never switch a channel off or on *)
+Theorem process_lf_channel_live : forall uo maxi fr j,
+  channel_live (fst (process_lf uo maxi fr)) j = channel_live (considered uo fr) j.
+Proof. exact process_lf_channel_live_l. Qed.
+Print Assumptions process_lf_channel_live.
+
+Theorem channel_live_iff : forall rows j,
+  channel_live rows j = true <-> exists inst, In inst rows /\ nth j inst None <> None.
+Proof. exact channel_live_iff_l. Qed.
+Print Assumptions channel_live_iff.
+
+(* per-row channels (SingleInstanceDataset, CenteredInstanceDataset): scaling keeps the flag *)
+Theorem node_labelled_scale : forall s j inst, node_labelled j (map (scale_kp s) inst) = node_labelled j inst.
+Proof. exact node_labelled_scale_l. Qed.
+Print Assumptions node_labelled_scale.
+
+Theorem multi_channels_nth : forall nodes rows j, (j < nodes)%nat ->
+  nth j (multi_channels nodes rows) false = channel_live rows j.
+Proof. exact multi_channels_nth_l. Qed.
+Print Assumptions multi_channels_nth.
+
+(* two animals with complementary NaN patterns: node 0 only in A, node 1 only in B, node 2 in neither *)
+Example ex_channel_live_complementary :
+  multi_channels 3
+    [[Some (QArith_base.Qmake 1%Z 1%positive, QArith_base.Qmake 2%Z 1%positive); None; None];
+     [None; Some (QArith_base.Qmake 3%Z 1%positive, QArith_base.Qmake 4%Z 1%positive); None];
+     nan_row 3] = [true; true; false].
+Proof. reflexivity. Qed.
